@@ -34,7 +34,7 @@ NO_SHRINK = ("parser/opts", "parser/opts/*", "world/dirs", "world/cwd")
 SHRINK_DICTS = ("world/files", "world/env", "world/symlinks", "ops/*/obj", "ops/*/env")
 
 CYCLIC = ["&a [*a]", "&x {k: *x}", "&a [1, [2, *a]]"]
-BADV = ["1.e", "-.e1", "1e-", "[1", "{", '{"a":', "*nope", "!!python/object:os.system x", "\x00", "a\x00b", "", " ", "null", "~", "-", "1e999", "{1: 2}", "? [1,2] : 3", "\t", "\u00e9", "0x1F", "yes", "--", "-1", "=", "a=b=c", "{{}}", "[[[[[[[[[[]]]]]]]]]]", "!!binary abc", "--- a\n--- b", "key: [unclosed", "- 1\n- 2", "{a: 1, a: 2}", "!!set {1, 2}", "!!python/tuple [1]", ".inf", "1:30", "2001-01-01", "<<: {a: 1}"] + CYCLIC
+BADV = ["!!int abc", "!!timestamp abc", "!!int '_'", "!!float x", "!!bool maybe", "!!null x", "!!str [1]", "!!seq {a: 1}", "!!map [1]", "!!binary =", "1.e", "-.e1", "1e-", "[1", "{", '{"a":', "*nope", "!!python/object:os.system x", "\x00", "a\x00b", "", " ", "null", "~", "-", "1e999", "{1: 2}", "? [1,2] : 3", "\t", "\u00e9", "0x1F", "yes", "--", "-1", "=", "a=b=c", "{{}}", "[[[[[[[[[[]]]]]]]]]]", "!!binary abc", "--- a\n--- b", "key: [unclosed", "- 1\n- 2", "{a: 1, a: 2}", "!!set {1, 2}", "!!python/tuple [1]", ".inf", "1:30", "2001-01-01", "<<: {a: 1}"] + CYCLIC
 CLASSP = ["Sub1", "Base", "dsim.simtypes.Sub2", "dsim.simtypes.Sub1", "Sub3", "dsim.simtypes.Sub3"]
 BADCLASSP = ["calendar.NoSuch", "os.path", "dsim.simtypes.Unrelated", "dsim.simtypes.AbstractBase", "no.such.module.X", "Sub1.", ".Sub1", "1bad.path", "dsim.simtypes", "dsim.simtypes.double", "dsim.simtypes.D", "json", "builtins.int", "Sub3", "calendar.Calendar", ""]
 BADSPEC = [
@@ -79,6 +79,11 @@ F = {
     "hold": {"decl": {"type": "opt_holder", "default": None}, "good": ["Holder", {"class_path": "dsim.simtypes.Holder", "init_args": {"inner": "Base"}}], "bad": BADSPEC[:6], "sub": ["inner", "inner.n", "inner.init_args.tags", "m", "help"], "cls": True},
     "lb": {"decl": {"type": "list_base", "default": []}, "good": [[{"class_path": "Base"}]], "bad": [[{"class_path": "os.path"}], "x", [3]], "sub": ["n", "class_path"], "append": True, "cls": True},
     "cb": {"decl": {"type": "callable_base"}, "good": ["Sub1", "dsim.simtypes.make_base"], "bad": BADCLASSP[:8], "sub": ["n", "help", "tags"], "cls": True},
+    "tb": {"decl": {"type": "opt_type_base", "default": None}, "good": ["dsim.simtypes.Sub1", "dsim.simtypes.Base"], "bad": BADCLASSP + [3, [1], {"class_path": "Sub1"}]},
+    "dec": {"decl": {"type": "decimal", "default": "1.5"}, "good": ["2.5", 3], "bad": ["abc", [1], "1,5", "NaN"]},
+    "ld": {"decl": {"type": "list_D", "default": []}, "good": [[{"u": 2}], []], "bad": [[{"u": "x"}], [{"zz": 1}], [3], {"u": 1}, "x"], "append": True, "sub": ["u", "0.u"]},
+    "dsd": {"decl": {"type": "dict_str_D", "default": {}}, "good": [{"k": {"u": 2}}], "bad": [{"k": {"u": "x"}}, {"k": 3}, {"k": {"zz": 1}}, [1]], "sub": ["k", "k.u", "k.zz"]},
+    "fnc": {"decl": {"type": "opt_callable", "default": None}, "good": ["dsim.simtypes.double", "os.path.join"], "bad": BADCLASSP[:6] + [3]},
     "pr": {"decl": {"type": "opt_probe", "default": None}, "good": ["p:x"], "bad": ["bad", 3, [1]]},
     "p": {"decl": {"type": "opt_path_fr", "default": None}, "good": ["good.yaml", "$W/run/good.yaml"], "bad": [], "path": True},
     "pl": {"decl": {"type": "list_path_fr", "default": [], "enable_path": True}, "good": [["good.yaml"], "list.txt"], "bad": [["nofile"], 3], "path": True, "append": True},
@@ -139,7 +144,7 @@ def make_content(rng, kind, feats):
     if kind == "bom":
         return {"text": "\ufeff" + txt}
     if kind == "unknown-key":
-        doc["zz"] = 1
+        doc[rng.choice(["zz", "zz", "cfg", "print_config", "help", "__path__", "subcommand"])] = rng.choice([1, "good.yaml", None, ["good.yaml"]])
         return {"text": json.dumps(doc)}
     if kind == "bad-value":
         fs = [f for f in feats if f in F and F[f]["bad"]]
@@ -202,7 +207,7 @@ def gen_argv(rng, feats, all_feats, spec_feats):
             if v == "inline":
                 v = json.dumps(good_doc(rng, feats))
             elif v == "badinline":
-                v = rng.choice(BADV + ['{"zz": 1}', '{"a": "x"}'])
+                v = rng.choice(BADV + ['{"zz": 1}', '{"a": "x"}', '{"cfg": "good.yaml"}', "cfg: good.yaml", '{"cfg": null}', '{"print_config": ""}'])
             argv += ["--cfg=" + v] if rng.random() < 0.4 else ["--cfg", v]
         elif c < 0.18 and "cfg" in spec_feats:
             argv.append(rng.choice(["--print_config", "--print_config=skip_null", "--print_config=bogus", "--print_config=--", "--print_config=", "--print_config=comments", "--print_config=skip_default,skip_null"]))
